@@ -247,6 +247,16 @@ func (fr *frame) declaredMods(m ModSpec, ctx *specCtx) []declMod {
 		}
 	case "key":
 		return []declMod{{key: m.Name}}
+	case "captured":
+		for _, fv := range fr.fn.FreeVars {
+			if fv.Name() == m.Name {
+				var out []declMod
+				for _, c := range fr.cellsOf(fr.val(fv), deref(fv.Type())) {
+					out = append(out, declMod{key: c.key, idx: c.idx})
+				}
+				return out
+			}
+		}
 	case "mapkey":
 		obj, err := ctx.tr(m.Expr)
 		if err != nil || obj.ty == nil {
